@@ -1,34 +1,58 @@
 /-
   DDProps.C09 — dynamic reordering is invisible.
+
   The decorator `_try_to_reorder` is modelled exactly as written (context flag, swallowing the
-  signal only at the outermost level, `_last_len := None`, sifting, one retry, re-arming with
-  `GROWTH_FACTOR * len`).  The TRIGGER is left abstract: `ite_dyn_spec` never unfolds
-  `requestReordering`, so it covers the request firing at any node creation (every `_last_len`,
-  and the harness's "fire at the k-th request" override).
+  signal only at the outermost level, `_last_len := None`, sifting, one retry, the `finally`
+  that re-arms with `GROWTH_FACTOR * len`).  The TRIGGER is left abstract: no theorem below
+  unfolds `requestReordering`, so each covers the request firing at any `find_or_add` (every
+  `_last_len`, and the harness's "fire at the k-th request" override).
+
+  ## The contract of sifting: `SiftContract ext`  (DDProofs.DynGeneric), PROVED in DDProofs.DynSift
+
+  ```
+  structure DynInv (ext : Nat → Nat) (m : Mgr) : Prop where
+    inv : Inv m                  order : OrderOK m.tbl        refs : RefExact m ext
+    ctx : m.ctx = false          sched : m.sched = []
+    roots : ∀ r ∈ m.roots, 0 < ext r.natAbs                   nvars : 2 ≤ m.nvars
+
+  structure SiftContract (ext : Nat → Nat) : Prop where
+    run : ∀ (m : Mgr), DynInv ext m → m.lastLen = none →
+      ∃ m', reorder none m = (.ok (), m') ∧ DynInv ext m' ∧ m'.lastLen = none ∧
+        m'.nvars = m.nvars ∧
+        (∀ s, m'.tbl.vars.contains s = m.tbl.vars.contains s) ∧
+        ∀ u : Int, HeldX ext u → ∀ σ, denN m'.tbl u σ = denN m.tbl u σ
+  ```
+  where `HeldX ext u := u.natAbs = 1 ∨ 0 < ext u.natAbs` ("the user holds `u`", `ext` being the
+  ghost ledger of user-held references of `RefExact`, C06) and `denN` is the denotation as a
+  function of variable NAMES.  It is the statement of C07 about `reorder(bdd)` (sifting).
+
+  Mapping to C07: `DynInv ext m` is `ReorderInv ext m` (`inv`, `order`, `refExact`, `rootsHeld`;
+  its `off` follows from `ctx = false`) plus `sched = []` and `2 ≤ nvars` (with one variable the
+  real `reorder` raises `ValueError`, C07 `sift_single_variable_raises`).  The contract is C07's
+  totality theorem for the default schedule (`C07_sift_total` / `applySifting_total_default`):
+  `ReorderInv ext m'`, `m'.sched = []`, and `ReorderRel ext m m'` (held denotations by name,
+  declared names, `nvars`, `roots`, `ctx`, `lastLen` kept).  The bridge is
+  `siftContract (ext) : SiftContract ext` (DDProofs.DynSift, `C09_siftContract` below), so the
+  transparency theorems of this file are UNCONDITIONAL.  The lemmas with the contract as an
+  explicit hypothesis are `tryToReorder_transparent`, `ite_transparent`, `var_transparent`,
+  `quantify_transparent`, `cofactor_transparent`, `compose_transparent`, `rename_transparent`,
+  `apply_binary_transparent`, `apply_ite_transparent`, `let_*_transparent` (DDProofs.Dyn*).
+  `SiftContract` replaces the former `SiftSpec`, which quantified over every `Inv` state and is
+  FALSE (`not_siftSpec` in DDProofs.DynApply: sifting fails on a state whose recorded schedule
+  does not start with a sifting order).  `C09_siftContract_example` evaluates the contract's
+  conclusion on a concrete manager.
 -/
-import DDProofs.DynProofs
+import DDProofs.DynExample
+import DDProofs.DynSift
+import DDProofs.DynCube
 import DDProps.Tables
 namespace DD
 
-/-- C09 (decorated `ite`, hence `apply` of every propositional alias), conditional on the
-specification of sifting (C07) `SiftSpec` and on counts not decreasing while an attempt only
-adds nodes: with dynamic reordering enabled, at whichever node creation the request fires,
-the result denotes — by variable name — the if-then-else of the operands as they were; the
-operands and every other held reference keep their meaning; the internal signal is not
-raised (the call returns `.ok`); reordering is still enabled afterwards; the context flag is
-restored. -/
-theorem C09_ite_transparent_of_siftSpec (hS : SiftSpec) (m : Mgr) (hI : Inv m)
-    (hctx : m.ctx = false) (hn : 2 ≤ m.nvars) (g u v : Int)
-    (hg : m.tbl.Mem g) (hu : m.tbl.Mem u) (hv : m.tbl.Mem v)
-    (hhg : Held m g) (hhu : Held m u) (hhv : Held m v)
-    (hmono : ∀ (m0 m1 : Mgr) (e : Err), iteRaw g u v m0 = (.error e, m1) →
-      ∀ w, Held m0 w → Held m1 w) :
-    ∃ r m', ite g u v m = (.ok r, m') ∧ DynPost m g u v r m' :=
-  ite_dyn_spec hS m hI hctx hn g u v hg hu hv hhg hhu hhv hmono
+/-! ## unconditional parts -/
 
-/-- C09 (unconditional part): an attempt aborted by a reordering request has only ADDED nodes —
-the invariant holds, every existing node is unchanged, the order and the flags are as before;
-and a request can only fire inside an armed context. -/
+/-- C09: an attempt aborted by a reordering request has only ADDED nodes — the invariant holds,
+every existing node is unchanged, the order and the flags are as before; and a request can only
+fire inside an armed context. -/
 theorem C09_abort_only_adds (m : Mgr) (hI : Inv m) (g u v : Int)
     (hg : m.tbl.Mem g) (hu : m.tbl.Mem u) (hv : m.tbl.Mem v) (m1 : Mgr)
     (h : iteF (m.nvars + 2) g u v m = (.error .needsReordering, m1)) :
@@ -37,8 +61,8 @@ theorem C09_abort_only_adds (m : Mgr) (hI : Inv m) (g u v : Int)
   rw [h] at this
   exact this.2
 
-/-- C09 (unconditional part): the path of the decorator after an aborted first attempt —
-requests disabled during sifting and the retry, re-armed with `GROWTH_FACTOR * len` -/
+/-- C09: the path of the decorator after an aborted first attempt — requests disabled during
+sifting and the retry, re-armed with `GROWTH_FACTOR * len` -/
 theorem C09_retry_path {α} (f : M α) (m m1 m3 m4 : Mgr) (a : α) (hctx : m.ctx = false)
     (h1 : f { m with ctx := true } = (.error .needsReordering, m1))
     (h2 : reorder none { m1 with ctx := m.ctx, lastLen := none } = (.ok (), m3))
@@ -47,13 +71,289 @@ theorem C09_retry_path {α} (f : M α) (m m1 m3 m4 : Mgr) (a : α) (hctx : m.ctx
       (.ok a, { m4 with ctx := m3.ctx, lastLen := some (Gen.growthFactor * m3.len) }) :=
   tryToReorder_retry f m m1 m3 m4 a hctx h1 h2 h3
 
-/-- C09 (FULL STATEMENT for the record; open: needs `SiftSpec` from C07 and the analogous
-abort-aware specifications of `quantify`, `cofactor`, `compose`, `rename`, `cube`, `var`,
-`add_expr`, `copy_bdd`): every decorated operation is transparent. Decided for those
-operations by correspondence at every trigger position only. -/
-def C09_all_operations_statement : Prop :=
-  SiftSpec → ∀ (m : Mgr) (g u v : Int), Inv m → m.ctx = false → 2 ≤ m.nvars →
-    m.tbl.Mem g → m.tbl.Mem u → m.tbl.Mem v → Held m g → Held m u → Held m v →
-    ∃ r m', ite g u v m = (.ok r, m') ∧ DynPost m g u v r m'
+/-- C09 (and C06): through `_ite`, whether it returns or is aborted by a reordering request, the
+reference counts stay EXACT for the same ledger of user-held references (the nodes an aborted
+attempt leaves behind are unreferenced), no count decreases and no key of `_ref` disappears —
+so everything the user holds is still held when sifting takes over. -/
+theorem C09_counts_through_ite (f : Nat) (m : Mgr) (ext : Nat → Nat) (g u v : Int) (hI : Inv m)
+    (hr : RefExact m ext) (hg : m.tbl.Mem g) (hu : m.tbl.Mem u) (hv : m.tbl.Mem v)
+    (hf : m.nvars + 1 ≤ f + min (m.tbl.levelOf g) (min (m.tbl.levelOf u) (m.tbl.levelOf v))) :
+    RefExact (iteF f g u v m).2 ext ∧ RefMono m (iteF f g u v m).2 :=
+  iteF_refKeep f m g u v hI hg hu hv hf ext hr
+
+example : Inv exM ∧ RefExact exM exExt ∧ exM.tbl.Mem 4 := ⟨exM_inv, exM_refExact, Or.inr (by decide)⟩
+
+/-- C09: the decorated `ite` NESTED in a reordering context (as the recursions call it) is `_ite`:
+the flag stays set and every exception, the reordering signal included, is re-raised. -/
+theorem C09_nested_ite_is_raw (g u v : Int) (m : Mgr) (h : m.ctx = true) :
+    ite g u v m = ((iteRaw g u v m).1, { (iteRaw g u v m).2 with ctx := true }) :=
+  ite_nested_eq g u v m h
+
+/-- C09: hence, inside a context or with requests disabled (`Quiet`), the decorated `ite` returns
+the if-then-else or is aborted having only added nodes (`Outcome`) — it never reorders. -/
+theorem C09_nested_ite (m : Mgr) (hI : Inv m) (hq : Quiet m) (g u v : Int)
+    (hg : m.tbl.Mem g) (hu : m.tbl.Mem u) (hv : m.tbl.Mem v) :
+    Outcome m (fun r m' => ItePost m g u v r m') (ite g u v m) :=
+  ite_nested_spec m hI hq g u v hg hu hv
+
+/-- C09: `_cofactor` in ANY state satisfying the invariant: documented restriction, or abort by a
+reordering request having only added nodes (counts exact and monotone included). -/
+theorem C09_cofactorF_abort_aware (values : List (Nat × Bool)) (f : Nat) (m : Mgr) (u : Int)
+    (ordvar : List Nat) (cache : Std.HashMap Int Int) (hI : Inv m) (hu : m.tbl.Mem u)
+    (hmemo : CofMemo values m.tbl cache)
+    (hord : ∀ j, (values.lookup j).isSome = true → m.tbl.levelOf u ≤ j → j ∈ ordvar)
+    (hf : m.nvars + 1 ≤ f + m.tbl.levelOf u) :
+    Outcome2 m (fun r c m' => CofMemo values m'.tbl c ∧ CofEntry values m'.tbl u r)
+      (cofactorF values f u ordvar cache m) :=
+  cofactorF_out values f m u ordvar cache hI hu hmemo hord hf
+
+/-- C09: `_quantify` inside a context (or with requests disabled) -/
+theorem C09_quantifyF_abort_aware (Q : List Nat) (fa : Bool) (f : Nat) (m : Mgr) (u : Int)
+    (ordvar : List Nat) (cache : Std.HashMap Int Int) (hI : Inv m) (hq : Quiet m)
+    (hu : m.tbl.Mem u) (hmemo : QMemo fa Q m.tbl cache)
+    (hord : ∀ j, j ∈ Q → m.tbl.levelOf u ≤ j → j ∈ ordvar)
+    (hf : m.nvars + 1 ≤ f + m.tbl.levelOf u) :
+    Outcome2 m (fun r c m' => QMemo fa Q m'.tbl c ∧ QEntry fa Q m'.tbl u r)
+      (quantifyF Q fa f u ordvar cache m) :=
+  quantifyF_out Q fa f m u ordvar cache hI hq hu hmemo hord hf
+
+/-- C09: `_compose` inside a context (or with requests disabled) -/
+theorem C09_composeF_abort_aware (j : Nat) (fu : Nat) (m : Mgr) (f g : Int)
+    (cache : Std.HashMap (Int × Int) Int) (hI : Inv m) (hq : Quiet m) (hf : m.tbl.Mem f)
+    (hg : m.tbl.Mem g) (hmemo : KMemo j m.tbl cache)
+    (hfu : 2 * m.nvars + 1 ≤ fu + m.tbl.levelOf f + m.tbl.levelOf g) :
+    Outcome2 m (fun r c m' => KMemo j m'.tbl c ∧ KPost j m'.tbl f g r)
+      (composeF j fu f g cache m) :=
+  composeF_out j fu m f g cache hI hq hf hg hmemo hfu
+
+/-- C09: `_vector_compose` inside a context (or with requests disabled) -/
+theorem C09_vectorComposeF_abort_aware (sub : List (Nat × Int)) (fu : Nat) (m : Mgr) (f : Int)
+    (cache : Std.HashMap Nat Int) (hI : Inv m) (hq : Quiet m) (hf : m.tbl.Mem f)
+    (hsub : SubMem m.tbl sub) (hmemo : VMemo sub m.tbl cache)
+    (hfu : m.nvars + 1 ≤ fu + m.tbl.levelOf f) :
+    Outcome2 m (fun r c m' => VMemo sub m'.tbl c ∧ VPost sub m'.tbl f r)
+      (vectorComposeF sub fu f cache m) :=
+  vectorComposeF_out sub fu m f cache hI hq hf hsub hmemo hfu
+
+/-- C09: `_copy_bdd` (rename, copy between managers) inside a context of the target -/
+theorem C09_copyBddF_abort_aware (src : Option Tbl) (lm : List (Nat × Nat)) (S : Tbl) (hS : WF S)
+    (fu : Nat) (m : Mgr) (u : Int) (cache : Std.HashMap Nat Int) (hI : Inv m) (hq : Quiet m)
+    (hsrc : SrcOK src S m.tbl) (hu : S.Mem u) (hmemo : CMemo lm S m.tbl cache)
+    (hlm : ∀ i, InSupp S u i → ∃ j, lm.lookup i = some j ∧ j < m.nvars)
+    (hfu : S.nvars + 1 ≤ fu + S.levelOf u) :
+    Outcome2 m (fun r c m' => CMemo lm S m'.tbl c ∧ CPost lm S m'.tbl u r)
+      (copyBddF src lm fu u cache m) :=
+  copyBddF_out src lm S hS fu m u cache hI hq hsrc hu hmemo hlm hfu
+
+example : Inv { exM with ctx := true } ∧ Quiet { exM with ctx := true } :=
+  ⟨exM_inv.setCtx true, Or.inl rfl⟩
+
+/-! ## the decorator (the contract of sifting is `siftContract`, from C07) -/
+
+/-- C09, GENERIC: for any body `f` that in every state satisfying the invariant (inside a context,
+`Pre` on its table, operands `ops` present) returns a result documented by `Doc` or is aborted
+having only added nodes, with `Pre` / `Doc` stable under a change of order that keeps the
+operands' meaning by name: the decorated `f` — reordering enabled or not, the request firing at
+whichever `find_or_add` — returns the documented result relative to the operands as they were,
+never raises the signal (`.ok`), leaves a state `DynInv` (counts exact for the same ledger, flag
+cleared), reordering enabled iff it was, the same declared names, and every user-held reference
+with the same meaning by name. -/
+theorem C09_decorator_transparent {α} (ext : Nat → Nat) (f : M α) (ops : List Int)
+    (Pre : Tbl → Prop) (Doc : Tbl → α → Tbl → Prop)
+    (hbody : ∀ m0 : Mgr, Inv m0 → m0.ctx = true → OrderOK m0.tbl → Pre m0.tbl →
+      (∀ u ∈ ops, m0.tbl.Mem u) → Outcome m0 (fun r m1 => Doc m0.tbl r m1.tbl) (f m0))
+    (hpre : ∀ t t', Bridge ops t t' → Pre t → Pre t')
+    (hdoc : ∀ t t' r t'', Bridge ops t t' → Pre t → Doc t' r t'' → Doc t r t'')
+    (m : Mgr) (hD : DynInv ext m) (hops : ∀ u ∈ ops, HeldX ext u) (hpre0 : Pre m.tbl) :
+    ∃ r m', tryToReorder f m = (.ok r, m') ∧ DynPostG ext Doc m r m' :=
+  tryToReorder_transparent ext (siftContract ext) f ops Pre Doc hbody hpre hdoc m hD hops hpre0
+
+/-- C09 `ite` (with dynamic reordering enabled, at whichever node creation the request fires):
+the result denotes — by variable name — the if-then-else of the operands as they were. -/
+theorem C09_ite_transparent (ext : Nat → Nat) (m : Mgr)
+    (hD : DynInv ext m) (g u v : Int) (hg : HeldX ext g) (hu : HeldX ext u) (hv : HeldX ext v) :
+    ∃ r m', ite g u v m = (.ok r, m') ∧ DynPostG ext (IteDoc g u v) m r m' :=
+  ite_transparent ext (siftContract ext) m hD g u v hg hu hv
+
+/-- non-vacuity: a state with reordering enabled and a request due at the next `find_or_add`,
+operands held; on it the first attempt IS aborted and the decorated call returns normally -/
+example : DynInv exExt exDyn ∧ HeldX exExt 4 ∧ HeldX exExt (-1) ∧ exDyn.lastLen.isSome = true ∧
+    (iteRaw 4 4 (-1) { exDyn with ctx := true }).1.toOption = none :=
+  ⟨exDyn_dynInv, exExt_held4, Or.inl rfl, rfl, by decide⟩
+
+/-- C09 `apply(op, u, v)` for every binary propositional alias of the regenerated vocabulary -/
+theorem C09_apply_binary_transparent (ext : Nat → Nat) (m : Mgr) (hD : DynInv ext m) (op : String)
+    (c : Conn) (hc : docConn op = some c)
+    (h2 : c.arity = 2) (hq1 : c ≠ .forall_) (hq2 : c ≠ .exists_)
+    (hall : Gen.allOps.contains op = true) (u v : Int) (hu : HeldX ext u) (hv : HeldX ext v) :
+    ∃ r m', apply op u (some v) none m = (.ok r, m') ∧ DynPostG ext (ConnDoc c u v) m r m' :=
+  apply_binary_transparent ext (siftContract ext) m hD op c hc h2 hq1 hq2 hall u v hu hv
+
+example : docConn "and" = some .and ∧ Conn.and.arity = 2 ∧ Gen.allOps.contains "and" = true := by
+  decide
+
+/-- C09 `apply('ite', u, v, w)` -/
+theorem C09_apply_ite_transparent (ext : Nat → Nat) (m : Mgr) (hD : DynInv ext m) (op : String)
+    (hc : docConn op = some .ite)
+    (hall : Gen.allOps.contains op = true) (u v w : Int) (hu : HeldX ext u) (hv : HeldX ext v)
+    (hw : HeldX ext w) :
+    ∃ r m', apply op u (some v) (some w) m = (.ok r, m') ∧ DynPostG ext (Ite3Doc u v w) m r m' :=
+  apply_ite_transparent ext (siftContract ext) m hD op hc hall u v w hu hv hw
+
+/-- C09 `var(name)` -/
+theorem C09_var_transparent (ext : Nat → Nat) (m : Mgr)
+    (hD : DynInv ext m) (name : String) (hdecl : m.tbl.vars.contains name = true) :
+    ∃ r m', var name m = (.ok r, m') ∧ DynPostG ext (VarDoc name) m r m' :=
+  var_transparent ext (siftContract ext) m hD name hdecl
+
+example : exDyn.tbl.vars.contains "a" = true := by decide
+
+/-- C09 `quantify` / `exist` / `forall` over declared variable NAMES: the result is the
+quantification, over those names, of the operand as it was -/
+theorem C09_quantify_transparent (ext : Nat → Nat) (m : Mgr) (hD : DynInv ext m) (u : Int)
+    (hu : HeldX ext u) (fa : Bool) (names : List String)
+    (hdecl : ∀ s ∈ names, m.tbl.vars.contains s = true) :
+    ∃ r m', quantify u (names.map Key.name) fa m = (.ok r, m') ∧
+      DynPostG ext (QuantDoc fa names u) m r m' :=
+  quantify_transparent ext (siftContract ext) m hD u hu fa names hdecl
+
+example : ∀ s ∈ ["a"], exDyn.tbl.vars.contains s = true := by decide
+
+/-- C09 `cofactor` (`let` with Boolean values) -/
+theorem C09_cofactor_transparent (ext : Nat → Nat) (m : Mgr) (hD : DynInv ext m) (u : Int)
+    (hu : HeldX ext u) (vals : List (String × Bool))
+    (hdecl : ∀ p ∈ vals, m.tbl.vars.contains p.1 = true) :
+    ∃ r m', cofactor u (boolKeys vals) m = (.ok r, m') ∧ DynPostG ext (CofDoc vals u) m r m' :=
+  cofactor_transparent ext (siftContract ext) m hD u hu vals hdecl
+
+/-- C09 `compose` (`let` with references) -/
+theorem C09_compose_transparent (ext : Nat → Nat) (m : Mgr) (hD : DynInv ext m) (f : Int)
+    (hf : HeldX ext f) (varSub : List (String × Int))
+    (hdecl : ∀ p ∈ varSub, m.tbl.vars.contains p.1 = true)
+    (hheld : ∀ p ∈ varSub, HeldX ext p.2) :
+    ∃ r m', compose f varSub m = (.ok r, m') ∧ DynPostG ext (ComposeDoc varSub f) m r m' :=
+  compose_transparent ext (siftContract ext) m hD f hf varSub hdecl hheld
+
+example : ∀ p ∈ [("a", (4 : Int))], exDyn.tbl.vars.contains p.1 = true ∧ HeldX exExt p.2 := by
+  intro p hp
+  simp only [List.mem_cons, List.not_mem_nil, or_false] at hp
+  subst hp
+  exact ⟨by decide, exExt_held4⟩
+
+/-- C09 `rename` (`let` with names) -/
+theorem C09_rename_transparent (ext : Nat → Nat) (m : Mgr) (hD : DynInv ext m) (u : Int)
+    (hu : HeldX ext u) (dvars : List (String × String))
+    (hd : ∀ p ∈ dvars, m.tbl.vars.contains p.2 = true) :
+    ∃ r m', rename u dvars m = (.ok r, m') ∧ DynPostG ext (RenameDoc dvars u) m r m' :=
+  rename_transparent ext (siftContract ext) m hD u hu dvars hd
+
+/-- C09 `let` in its three homogeneous forms -/
+theorem C09_let_transparent (ext : Nat → Nat) (m : Mgr)
+    (hD : DynInv ext m) (u : Int) (hu : HeldX ext u) :
+    (∀ (vals : List (String × Bool)), vals ≠ [] →
+      (∀ p ∈ vals, m.tbl.vars.contains p.1 = true) →
+      ∃ r m', letOp (.bools (boolKeys vals)) u m = (.ok r, m') ∧
+        DynPostG ext (CofDoc vals u) m r m') ∧
+    (∀ (varSub : List (String × Int)), varSub ≠ [] →
+      (∀ p ∈ varSub, m.tbl.vars.contains p.1 = true) → (∀ p ∈ varSub, HeldX ext p.2) →
+      ∃ r m', letOp (.refs varSub) u m = (.ok r, m') ∧
+        DynPostG ext (ComposeDoc varSub u) m r m') ∧
+    (∀ (dvars : List (String × String)), dvars ≠ [] →
+      (∀ p ∈ dvars, m.tbl.vars.contains p.2 = true) →
+      ∃ r m', letOp (.names dvars) u m = (.ok r, m') ∧
+        DynPostG ext (RenameDoc dvars u) m r m') :=
+  ⟨fun vals hne hd => let_bools_transparent ext (siftContract ext) m hD u hu vals hne hd,
+   fun varSub hne hd hh => let_refs_transparent ext (siftContract ext) m hD u hu varSub hne hd hh,
+   fun dvars hne hd => let_names_transparent ext (siftContract ext) m hD u hu dvars hne hd⟩
+
+/-- C09, non-vacuity of the contract: its conclusion HOLDS (by evaluation of the model) for the
+concrete manager `exM` — sifting returns normally, `DynInv` for the same ledger, same variables,
+the held node 4 denotes the same function of the names. -/
+theorem C09_siftContract_example :
+    DynInv exExt exM ∧ exM.lastLen = none ∧
+    ∃ m', reorder none exM = (.ok (), m') ∧ DynInv exExt m' ∧ m'.lastLen = none ∧
+      m'.nvars = exM.nvars ∧
+      (∀ s, m'.tbl.vars.contains s = exM.tbl.vars.contains s) ∧
+      ∀ u : Int, HeldX exExt u → ∀ σ, denN m'.tbl u σ = denN exM.tbl u σ :=
+  ⟨exM_dynInv, rfl, siftContract_conclusion_exM⟩
+
+/-- C09, the retry path is inhabited in the model: on `exDyn` the first attempt of
+`ite(4, 3, -1)` is aborted by the request, yet the decorated call returns the reference of
+`a ∧ b` with reordering still enabled and the flag cleared. -/
+theorem C09_retry_example :
+    (iteRaw 4 3 (-1) { exDyn with ctx := true }).1.toOption = none ∧
+    (ite 4 3 (-1) exDyn).1.toOption = some 4 ∧ (ite 4 3 (-1) exDyn).2.lastLen = some 6 ∧
+      (ite 4 3 (-1) exDyn).2.ctx = false :=
+  ⟨exDyn_first_attempt_aborts, exDyn_ite_ok⟩
+
+/-! ## the contract of sifting, and the remaining entry points -/
+
+/-- C09: the contract of sifting holds for every ledger (C07's totality of sifting). -/
+theorem C09_siftContract (ext : Nat → Nat) : SiftContract ext := siftContract ext
+
+/-- C09 `cube(dvars)` over declared names (a loop of the decorated `var` and `apply('and')`,
+nested in the context of `cube`, where they re-raise the signal): the conjunction of the
+literals, by name. -/
+theorem C09_cube_transparent (ext : Nat → Nat) (m : Mgr) (hD : DynInv ext m)
+    (dvars : List (String × Bool)) (hdecl : ∀ p ∈ dvars, m.tbl.vars.contains p.1 = true) :
+    ∃ r m', cube dvars m = (.ok r, m') ∧ DynPostG ext (CubeDoc dvars) m r m' :=
+  cube_transparent ext (siftContract ext) m hD dvars hdecl
+
+example : ∀ p ∈ [("a", true), ("b", false)], exDyn.tbl.vars.contains p.1 = true := by decide
+
+/-- C09 `copy_bdd(u, from_bdd, to_bdd)` into a target with dynamic reordering enabled (the body
+runs inside the target's decorator, fix F4b): the copy denotes the same function of the variable
+names as `u` in the source `s`, whatever the target does to its order meanwhile. -/
+theorem C09_copy_bdd_transparent (ext : Nat → Nat) (s : Tbl) (hS : WF s) (hOs : OrderOK s)
+    (m : Mgr) (hD : DynInv ext m) (u : Int) (hu : s.Mem u) (hsup : CopyPre s u m.tbl) :
+    ∃ r m', copyBdd s u m = (.ok r, m') ∧ DynPostG ext (CopyDoc s u) m r m' :=
+  copyBdd_transparent ext (siftContract ext) s hS hOs m hD u hu hsup
+
+example : WF exM.tbl ∧ OrderOK exM.tbl ∧ exM.tbl.Mem 4 ∧ CopyPre exM.tbl 4 exDyn.tbl := by
+  refine ⟨exM_inv.wf.toWF, exM_orderOK, Or.inr (by decide), ?_⟩
+  intro i v hi hv
+  have hlt := hi.lt_nvars exM_inv.wf.toWF
+  have hn : exM.tbl.nvars = 2 := by decide
+  rw [hn] at hlt
+  have h0 : exM.tbl.l2v[0]? = some "a" := by decide
+  have h1 : exM.tbl.l2v[1]? = some "b" := by decide
+  match i, hlt with
+  | 0, _ => rw [h0] at hv; cases hv; decide
+  | 1, _ => rw [h1] at hv; cases hv; decide
+
+/-- C09 `apply` with a quantifier alias (`\A`, `\E`, `forall`, `exists`): the variables are the
+support of the first operand (`names`, all declared), the second operand is quantified. -/
+theorem C09_apply_quant_transparent (ext : Nat → Nat) (m : Mgr) (hD : DynInv ext m) (op : String)
+    (c : Conn) (hc : docConn op = some c) (hq : c = .forall_ ∨ c = .exists_)
+    (hall : Gen.allOps.contains op = true) (u v : Int) (hu : m.tbl.Mem u) (hv : HeldX ext v)
+    (names : List String) (hsupp : support m.tbl u = .ok names)
+    (hdecl : ∀ s ∈ names, m.tbl.vars.contains s = true) :
+    ∃ r m', apply op u (some v) none m = (.ok r, m') ∧
+      DynPostG ext (QuantDoc (decide (c = .forall_)) names v) m r m' :=
+  apply_quant_transparent ext (siftContract ext) m hD op c hc hq hall u v hu hv names hsupp hdecl
+
+/-- C09, chaining: two decorated calls in a row (the expression `ite(g, u, v) /\ w`), the first
+result `incref`ed in between as the autoref wrapper does; a reordering request may fire in either
+call, the ledger of user-held references grows along the way. -/
+theorem C09_chained_calls_transparent (ext : Nat → Nat) (m : Mgr) (hD : DynInv ext m)
+    (g u v w : Int) (hg : HeldX ext g) (hu : HeldX ext u) (hv : HeldX ext v) (hw : HeldX ext w) :
+    ∃ r1 m1, ite g u v m = (.ok r1, m1) ∧ ∃ m1', incref r1 m1 = (.ok (), m1') ∧
+      ∃ r2 m2, apply "and" r1 (some w) none m1' = (.ok r2, m2) ∧
+        DynInv (extInc ext r1.natAbs) m2 ∧ m2.tbl.Mem r2 ∧
+        ∀ σ, denN m2.tbl r2 σ =
+          ((if denN m.tbl g σ then denN m.tbl u σ else denN m.tbl v σ) && denN m.tbl w σ) :=
+  ite_then_and_transparent ext m hD siftContract g u v w hg hu hv hw
+
+/-! ## what is not covered
+
+Proved above for the decorated entry points of the model: `ite`, `apply` (binary propositional
+aliases, `ite`, quantifier aliases), `var`, `quantify`/`exist`/`forall`, `let` in its three forms
+(`cofactor`, `compose`, `rename`), `cube`, `copy_bdd` into the manager, and the chaining of calls
+with `incref` in between.  NOT covered by a theorem: `add_expr` as a whole (the parser's tree walk
+of C05 is a chain of the calls above with the intermediate results held by the autoref wrapper —
+`C09_chained_calls_transparent` is the two-call instance; the general statement is C08's history
+theorem composed with the theorems above), `load` (C12/C16), and the undecorated `image`,
+`preimage`, `autoref.BDD.find_or_add`, for which the property is FALSE of the code (known findings
+F4a/F4c).  Those are decided by correspondence at every trigger position. -/
 
 end DD
